@@ -83,7 +83,7 @@ def oem_cases(draw):
 
 
 def identities(ctx, K, Sa, Sy, x, xa, ey, tag=""):
-    """All identities for one (K, S_a, S_y).  Returns (compared, A)."""
+    """All identities for one (K, S_a, S_y).  Returns (tol or None, A)."""
     from typhon.retrieval import oem
     m, n = K.shape
     eye = np.eye(n)
@@ -99,7 +99,7 @@ def identities(ctx, K, Sa, Sy, x, xa, ey, tag=""):
     tol = 1e-13 * cSy * (cSa + cSy + cN + cM)
     if not np.isfinite(tol) or tol > 1e-4:
         ctx.label("ill-conditioned" + tag)
-        return False, None
+        return None, None
     ctx.label("compared" + tag)
     S_n = np.linalg.solve(N, eye)
     G_n = np.linalg.solve(N, SyiK.T)
@@ -174,7 +174,7 @@ def identities(ctx, K, Sa, Sy, x, xa, ey, tag=""):
         tol + 1e-13) * np.linalg.norm(G_m, 2) * fro(ey) + 1e-300,
         "retrieval_noise", lambda: "got %r expected %r; %s" % (
             rn, ref, info()))
-    return True, np.asarray(A)
+    return tol, np.asarray(A)
 
 
 def check_oem(case, ctx):
@@ -200,7 +200,7 @@ def check_oem(case, ctx):
     if correlated:
         ctx.label("correlated")
     compared, A = identities(ctx, K, Sa, Sy, x, xa, ey)
-    if compared and (n != m or correlated):
+    if compared is not None and (n != m or correlated):
         ctx.nontrivial = True
 
     eye = np.eye(n)
@@ -212,8 +212,8 @@ def check_oem(case, ctx):
         last = None
         for eps in EPS_SEQ:
             Sy_e = Sy * eps
-            ok, A = identities(ctx, K, Sa, Sy_e, x, xa, ey, "@limit")
-            if not ok:
+            tol, A = identities(ctx, K, Sa, Sy_e, x, xa, ey, "@limit")
+            if tol is None:
                 continue
             KtSiK = K.T @ np.linalg.solve(Sy_e, K)
             evk = np.linalg.eigvalsh((KtSiK + KtSiK.T) / 2)
@@ -224,10 +224,11 @@ def check_oem(case, ctx):
                 continue
             bound = 1.0 / evk.min() / np.linalg.eigvalsh(Sa).min()
             dist = np.linalg.norm(eye - A, 2)
-            ctx.check(dist <= bound * (1 + 1e-6) + 1e-9,
+            # A itself is only accurate to tol * ||A|| (~ tol * sqrt(n))
+            ctx.check(dist <= bound * (1 + 1e-6) + 2 * tol * fro(A) + 1e-12,
                       "limit/noise-A-not-identity", lambda: (
-                          "eps=%g: ||I - A|| = %.3g > bound %.3g" % (
-                              eps, dist, bound)))
+                          "eps=%g: ||I - A|| = %.6g > bound %.6g (+ %.3g)" % (
+                              eps, dist, bound, 2 * tol * fro(A))))
             last = (eps, dist, bound)
         if last is not None and last[2] < 1e-3:
             ctx.label("limit-noise-reached(|I-A|<1e-3)")
@@ -236,15 +237,15 @@ def check_oem(case, ctx):
         last = None
         for eps in EPS_SEQ:
             Sa_e = Sa * eps
-            ok, A = identities(ctx, K, Sa_e, Sy, x, xa, ey, "@limit")
-            if not ok:
+            tol, A = identities(ctx, K, Sa_e, Sy, x, xa, ey, "@limit")
+            if tol is None:
                 continue
             bound = (np.linalg.norm(Sa_e, 2) * np.linalg.norm(K, 2) ** 2
                      / np.linalg.eigvalsh(Sy).min())
             dist = np.linalg.norm(A, 2)
-            ctx.check(dist <= bound * (1 + 1e-6) + 1e-300,
+            ctx.check(dist <= bound * (1 + 1e-6) + 2 * tol * dist + 1e-300,
                       "limit/prior-A-not-zero", lambda: (
-                          "eps=%g: ||A|| = %.3g > bound %.3g" % (
+                          "eps=%g: ||A|| = %.6g > bound %.6g" % (
                               eps, dist, bound)))
             last = (eps, dist, bound)
         if last is not None and last[2] < 1e-3:
@@ -254,5 +255,5 @@ def check_oem(case, ctx):
 def suites(tier):
     return [
         Suite("identities", check_oem, strategy=oem_cases(),
-              examples={"quick": 1100, "thorough": 12000}),
+              examples={"quick": 2000, "thorough": 12000}),
     ]
